@@ -393,6 +393,44 @@ func checkC18(c *Ctx) {
 		}
 		return false
 	}
+	// the variable the accept loop takes its listener from: the field Server.listener, or a local of Run (a cell,
+	// e.g. `ln`, captured by the deferred Close) - the rules below are about that variable
+	var lcell *ssa.Alloc
+	lname := "s.listener"
+	if ld, isLd := an.Strip(m.accept.Common().Value).(*ssa.UnOp); isLd && ld.Op == token.MUL {
+		if al, isAl := an.CellRoot(ld.X).(*ssa.Alloc); isAl && al.Parent() == run {
+			if _, esc := an.CellStores(al); !esc {
+				lcell = al
+				lname = "Run's listener variable"
+			}
+		}
+	}
+	listenerStores := func(fns []*ssa.Function) []fieldStore {
+		if lcell == nil {
+			return fieldStores(fns, G, "Server", "listener")
+		}
+		var out []fieldStore
+		sts, _ := an.CellStores(lcell)
+		for _, st := range sts {
+			out = append(out, fieldStore{st.Parent(), st, lcell})
+		}
+		return out
+	}
+	isListenerLoad := func(v ssa.Value) bool {
+		if lcell == nil {
+			_, ok := fieldLoad(v, G, "Server", "listener")
+			return ok
+		}
+		ld, ok := an.Strip(v).(*ssa.UnOp)
+		return ok && ld.Op == token.MUL && an.CellRoot(ld.X) == ssa.Value(lcell)
+	}
+	isListenerAddr := func(a ssa.Value) bool {
+		if lcell == nil {
+			_, ok := fieldAddr(a, G, "Server", "listener")
+			return ok
+		}
+		return an.CellRoot(a) == ssa.Value(lcell)
+	}
 	var wrapStoreG *ssa.Store   // the store that installs the TLS listener
 	var wrapAtG ssa.Instruction // where that happens in Run (the store or the helper call)
 	{
@@ -405,7 +443,7 @@ func checkC18(c *Ctx) {
 			}
 		}
 		var wrapStore *ssa.Store
-		for _, fs := range fieldStores(wrapFns, G, "Server", "listener") {
+		for _, fs := range listenerStores(wrapFns) {
 			call, ok := an.Strip(fs.Store.Val).(*ssa.Call)
 			if ok && an.CalleeIs(call.Common(), "crypto/tls", "NewListener") {
 				if wrapStore != nil {
@@ -413,14 +451,14 @@ func checkC18(c *Ctx) {
 				}
 				wrapStore = fs.Store
 				inner := call.Common().Args[0]
-				_, innerOK := fieldLoad(inner, G, "Server", "listener")
+				innerOK := isListenerLoad(inner)
 				if ex, isEx := an.Strip(inner).(*ssa.Extract); isEx {
 					if lc, ok := ex.Tuple.(*ssa.Call); ok && an.CalleeIs(lc.Common(), "net", "Listen") {
 						innerOK = true
 					}
 				}
 				cfgOK := isCfg(call.Common().Args[1], 0)
-				R.Check(innerOK && cfgOK, "C18-wrap", "(*Server).Run: tls.NewListener(plain listener, configured tls.Config)", c.pos(call), "wraps s.listener with exactly the WithTLSConfig value", sprintf("TLS listener is not built from the plain listener and the caller's config (listener=%v config=%v: %s)", innerOK, cfgOK, an.Path(call.Common().Args[1])))
+				R.Check(innerOK && cfgOK, "C18-wrap", "(*Server).Run: tls.NewListener(plain listener, configured tls.Config)", c.pos(call), "wraps "+lname+" with exactly the WithTLSConfig value", sprintf("TLS listener is not built from the plain listener and the caller's config (listener=%v config=%v: %s)", innerOK, cfgOK, an.Path(call.Common().Args[1])))
 			}
 		}
 		// tests of "a TLS config was given": nil checks of the configured value, in Run or in a helper (on the
@@ -443,7 +481,7 @@ func checkC18(c *Ctx) {
 		}
 		switch {
 		case wrapStore == nil:
-			R.Fail("C18-wrap", key, c.pos(m.accept), "no store of tls.NewListener(...) into s.listener")
+			R.Fail("C18-wrap", key, c.pos(m.accept), "no store of tls.NewListener(...) into "+lname)
 		default:
 			h := wrapStore.Parent()
 			// where, in Run, the TLS listener gets installed
@@ -505,7 +543,7 @@ func checkC18(c *Ctx) {
 				if bad != "" {
 					R.Fail("C18-wrap", key, c.pos(wrapStore), bad)
 				} else {
-					R.OK("C18-wrap", key, c.pos(wrapStore), "every path with a TLS config stores tls.NewListener(listener, config) into s.listener before the first Accept")
+					R.OK("C18-wrap", key, c.pos(wrapStore), "every path with a TLS config stores tls.NewListener(listener, config) into "+lname+" before the first Accept")
 				}
 				// never replaced afterwards
 				later := func(in ssa.Instruction) bool {
@@ -513,19 +551,18 @@ func checkC18(c *Ctx) {
 					if !ok {
 						return false
 					}
-					_, ok = fieldAddr(st.Addr, G, "Server", "listener")
-					return ok
+					return isListenerAddr(st.Addr)
 				}
 				if w := an.Search(an.After(wrapAt), later, nil); w != nil {
-					R.Fail("C18-wrap", "(*Server).Run: TLS listener not replaced", c.pos(wrapStore), "s.listener is assigned again after the TLS wrap: "+c.trail(w))
+					R.Fail("C18-wrap", "(*Server).Run: TLS listener not replaced", c.pos(wrapStore), lname+" is assigned again after the TLS wrap: "+c.trail(w))
 				} else {
-					R.OK("C18-wrap", "(*Server).Run: TLS listener not replaced", c.pos(wrapStore), "no later store to s.listener")
+					R.OK("C18-wrap", "(*Server).Run: TLS listener not replaced", c.pos(wrapStore), "no later store to "+lname)
 				}
 			}
 		}
 	}
-	// stores to Server.listener elsewhere
-	for _, fs := range fieldStores(c.shippedFuncs(G), G, "Server", "listener") {
+	// stores to the listener variable elsewhere
+	for _, fs := range listenerStores(c.shippedFuncs(G)) {
 		if fs.Fn == run {
 			continue
 		}
@@ -552,7 +589,7 @@ func checkC18(c *Ctx) {
 		R.Check(okHelper, "C18-wrap", fname(fs.Fn)+": store Server.listener", c.pos(fs.Store), "part of Run, executed before Run installs the TLS listener", "the listener is replaced outside Run")
 	}
 	// Accept on s.listener
-	_, okAcc := fieldLoad(m.accept.Common().Value, G, "Server", "listener")
+	okAcc := isListenerLoad(m.accept.Common().Value)
 	if okAcc && wrapAtG != nil {
 		// the listener value Accept uses is read after the TLS listener was installed (a copy taken earlier would
 		// still be the plain listener)
@@ -562,7 +599,7 @@ func checkC18(c *Ctx) {
 			}
 		}
 	}
-	R.Check(okAcc, "C18-wrap", "(*Server).Run: Accept on s.listener", c.pos(m.accept), "the accept loop uses the (possibly TLS) listener stored in the server, read after the TLS wrap", "Accept is called on "+an.Path(m.accept.Common().Value)+", not on s.listener as it is after the TLS wrap")
+	R.Check(okAcc, "C18-wrap", "(*Server).Run: Accept on s.listener", c.pos(m.accept), "the accept loop uses the (possibly TLS) listener held in "+lname+", read after the TLS wrap", "Accept is called on "+an.Path(m.accept.Common().Value)+", not on "+lname+" as it is after the TLS wrap")
 
 	// ---- C18-noplain
 	sock := an.Strip(m.newConn.Common().Args[2])
